@@ -396,6 +396,11 @@ def classify(case, impl, model):
         return "P", "the call never returned (a method left the shard mutex locked, or deadlock); specification: %s" % model[:200]
     if impl.startswith("panic"):
         return "P", "the implementation panicked: %s" % impl[:200]
+    if impl.startswith("crash:"):
+        return "P", ("this case cannot run cleanly: %s (race = data race reported by the Go race detector, fatal = runtime fatal error "
+                     "such as concurrent map access)" % impl)
+    if impl.startswith("crash-unresolved"):
+        return "G", "case not isolated: too many crashing cases in this run"
     if case.startswith("wgl"):
         return "G", "self-test of the linearizability checker failed: expected %s, the driver says %s" % (impl, model)
     if case.startswith("e2e") and ("!unsettled" in impl or impl.startswith("panic no_P")):
